@@ -1,25 +1,36 @@
+//@ variant: hit HIT=1 NC=8 X=-DXV_ATR_PLAIN
+//@ variant: miss HIT=0 NC=3 X=-DXV_ATR_PLAIN
+//@ variant: anytype HIT=0 NC=3 X=-DXV_ATR_ANY_TYPE
+//@ variant: strict HIT=1 NC=8 X=-DXV_ATR_STRICT
 //@ tu: libxcm/core/attr_tree.c libxcm/core/attr_node.c libxcm/core/attr_path.c
 //@ enforce: attr_tree_set_value
 //@ replace: attr_path_parse attr_path_destroy node_lookup xv_atr_setter xv_atr_getter
+//@ defs: -DXV_ATR_HIT=$HIT $X
 //@ props: C10
-//@ expect: postcondition>=15 canary=9
+//@ expect: postcondition>=15 canary=$NC
 #include "_unit.h"
 /* attr_tree_set_value for EVERY name string of 0..299 characters, every caller type among the five enumerators, every
- * len and every node the name may resolve to (none / dictionary / list / value of any registered type, with or
- * without setter).  valid_set_attr_len and the attr_node_* accessors are the real text, inlined. */
+ * len and every node the name may resolve to (variant hit: dictionary / list / value of any registered type, with or
+ * without setter; variant miss: none).  valid_set_attr_len and the attr_node_* accessors are the real text, inlined.
+ * Variant anytype: the caller's type is ANY value of the enum's underlying type (a type that is none of the five
+ * enumerators is a wrong type).  Variant strict: the stricter reading of DESIGN.md 5/C10 (a dictionary/list name is an
+ * unknown name: ENOENT; a str value with a NUL before len-1 has a wrong length). */
 void harness(void)
 {
     xv_ghost_havoc(); ATR_GHOST_HAVOC();
     struct attr_tree *tree; const char *name; enum xcm_attr_type type; const void *value; size_t len; void *log_ref;
     long c0 = xv_atr_set_calls;
     int rv = attr_tree_set_value(tree, name, type, value, len, log_ref);
-    if (rv == -1 && xv_errno == ENOENT) XV_CANARY("unknown name");
-    if (rv == -1 && xv_errno == EACCES && xv_atr_set_calls == c0) XV_CANARY("not writable");
     if (rv == -1 && xv_errno == EINVAL && xv_atr_set_calls == c0 && xv_ap_len > ATTR_PATH_NAME_MAX) XV_CANARY("over-long name");
     if (rv == -1 && xv_errno == EINVAL && xv_atr_set_calls == c0 && xv_ap_len == 5) XV_CANARY("EINVAL before the setter");
+#if XV_ATR_HIT
+    if (rv == -1 && xv_errno == EACCES && xv_atr_set_calls == c0) XV_CANARY("not writable");
     if (rv == 0 && xv_atr_set_calls == c0 + 1 && type == xcm_attr_type_bool) XV_CANARY("bool set");
     if (rv == 0 && xv_atr_set_calls == c0 + 1 && type == xcm_attr_type_str && len == ATR_STR_MAX) XV_CANARY("longest str set");
     if (rv == 0 && xv_atr_set_calls == c0 + 1 && type == xcm_attr_type_bin && len == 0) XV_CANARY("empty bin set");
     if (rv == 0 && xv_atr_set_calls == c0 + 1 && type == xcm_attr_type_bin && len > ((size_t)1 << 40)) XV_CANARY("huge bin set");
     if (rv == -1 && xv_atr_set_calls == c0 + 1 && xv_errno == EBUSY) XV_CANARY("setter failure passed through");
+#else
+    if (rv == -1 && xv_errno == ENOENT) XV_CANARY("unknown name");
+#endif
 }
